@@ -234,18 +234,16 @@ def retryWithAuth (r : Req) (c : Code) : Bool := c == .e438 || (c == .e401 && !r
     channel is unwrapped, anything else passes through.  `src` = the peer the base socket reported
     (none = the server).  Every read of the packet is bounds-checked (`fault`). -/
 def unwrapData (s : St) (b : Bytes) (src : Option Nat) : (Option Nat × Bytes) × St :=
-  if s.channels.isEmpty then ((src, b), s)
+  -- `recv_len >= sizeof (uint32_t) && b->channel == ntohs (recv_buf.u16[0])`: shorter packets match no binding
+  if s.channels.isEmpty || b.length < 4 then ((src, b), s)
   else
-    -- `b->channel == ntohs (recv_buf.u16[0])` is evaluated for the first binding at least
-    let s := if b.length < 2 then { s with fault := true } else s
     let chan := be16 (b.getD 0 0) (b.getD 1 0)
     match s.channels.find? (·.2 == chan) with
     | none => ((src, b), s)
     | some (peer, _) =>
-      let s := if b.length < 4 then { s with fault := true } else s
-      let recvLen := be16 (b.getD 2 0) (b.getD 3 0)
-      let n := min b.length recvLen
-      -- memmove (buf, recv_buf.u8 + 4, n): reads [4, 4 + n) of a packet of b.length bytes
+      -- recv_len = MIN (ntohs (length field), recv_len - 4): never beyond the received datagram
+      let n := min (be16 (b.getD 2 0) (b.getD 3 0)) (b.length - 4)
+      -- memmove (buf, recv_buf.u8 + 4, MIN (len, n)): reads [4, 4 + n) of a packet of b.length bytes
       let s := if 4 + n > b.length then { s with fault := true } else s
       ((some peer, (b.drop 4).take n), s)
 
